@@ -2,7 +2,7 @@
 Props/C04.lean — a Sensor reports the global field at its pixels, in its own frame;
 left-handed sensors flip x; pixel_agg reduces over exactly each sensor's pixels.
 -/
-import MagpyVerif.Lemmas.Level2Compose
+import MagpyVerif.Lemmas.Level2Shape
 namespace MagpyVerif.C04
 open MagpyVerif MagpyVerif.Level2
 variable {G V : Type}
@@ -56,5 +56,73 @@ theorem sensor_reading [Group G] [AddCommGroup V] [DistribMulAction G V] [BEq G]
   apply List.map_congr_left
   intro px _
   simp only [Function.comp, specValue, sensT, hr]
+
+section aggEndToEnd
+variable [Group G] [AddCommGroup V] [DistribMulAction G V] [BEq G] [LawfulBEq G]
+
+/-- **pixel_agg, end to end** (both code branches: the `pix_all_same` reshape-and-reduce and the
+`np.split(B, pix_inds[1:-1])` one): with a `pixel_agg` the call is accepted for arbitrary — also
+different — pixel shapes per sensor, and the element `(l, m, k)` of the returned array (row-major
+position `(l·M + m)·K + k`; the pixel axis has length 1) is the reduction `aggList agg` over exactly
+the pixel list `[l][m][k]` of the tensor the same call computes before aggregation
+(`Model/Level2.tensor`, i.e. what `pixel_agg=None` would return where that is allowed): every pixel of
+sensor `k` enters once, no pixel of another sensor does. -/
+theorem pixel_agg_is_reduction_end_to_end (flipX : V → V) (vmin vmax : V → V → V)
+    (entries : List (Entry G V)) (sensors : List (Sens G V)) (agg : Agg) (hagg : agg ≠ .none)
+    (out : Out V) (hs : ∀ k ∈ sensors, k.WF)
+    (h : getBH flipX vmin vmax entries sensors false false agg = .ok out) (l m k : Nat)
+    (hm : m < pathLen (entries.flatMap Entry.leaves) sensors) (hk : k < sensors.length) :
+    out.data[(l * pathLen (entries.flatMap Entry.leaves) sensors + m) * sensors.length + k]? =
+      (((tensor flipX entries sensors)[l]?.bind (·[m]?)).bind (·[k]?)).map
+        (aggList agg vmin vmax) := by
+  have hok := not_bad_of_getBH_ok h
+  have hne : sensors ≠ [] := fun hs => hok (Or.inr (Or.inl hs))
+  obtain ⟨k0, ks, hks⟩ := List.exists_cons_of_ne_nil hne
+  have hk0 : sensors.head? = some k0 := by rw [hks]; rfl
+  have hr := coreB_rect flipX vmin vmax entries sensors false agg hok hs k0 hk0
+  rw [getBH_ok flipX vmin vmax entries sensors false false agg hok] at h
+  cases h
+  simp only [hagg, Bool.false_eq_true, if_false] at hr ⊢
+  have := flat4_getElem? hr l m k 0 hm hk Nat.one_pos
+  rw [Nat.mul_one, Nat.add_zero] at this
+  rw [this]
+  simp only [coreB, hagg, Bool.false_eq_true, if_false, id]
+  exact aggT_getElem? agg vmin vmax _ l m k
+
+/-- … and in terms of the specification: the element for entry `e`, path index `m` and sensor `s` is
+the reduction over the readings of `s`'s own pixels (global field of `e` at each pixel position,
+in the sensor frame, see `sensor_reading`) -/
+theorem pixel_agg_of_sensor_readings (flipX : V → V) (vmin vmax : V → V → V)
+    (entries : List (Entry G V)) (sensors : List (Sens G V)) (agg : Agg) (hagg : agg ≠ .none)
+    (out : Out V) (hs : ∀ k ∈ sensors, k.WF)
+    (h : getBH flipX vmin vmax entries sensors false false agg = .ok out) (l m k : Nat)
+    (e : Entry G V) (s : Sens G V) (hl : entries[l]? = some e)
+    (hm : m < pathLen (entries.flatMap Entry.leaves) sensors) (hk : sensors[k]? = some s) :
+    out.data[(l * pathLen (entries.flatMap Entry.leaves) sensors + m) * sensors.length + k]? =
+      some (aggList agg vmin vmax ((pixPos s m).map (specValue flipX e s m))) := by
+  have hok := not_bad_of_getBH_ok h
+  have he : ∀ e ∈ entries, e.leaves ≠ [] := fun e he hl => hok (Or.inr (Or.inr (Or.inl ⟨e, he, hl⟩)))
+  rw [pixel_agg_is_reduction_end_to_end flipX vmin vmax entries sensors agg hagg out hs h l m k hm
+    (List.getElem?_eq_some_iff.mp hk).1, tensor_eq_spec flipX entries sensors he hs,
+    specTensor_pixels flipX entries sensors l m k e s hl hm hk]
+  rfl
+end aggEndToEnd
+
+-- non-vacuity: the reduction step on a 1 × 1 × 2 array with 2 and 3 pixels, and the hypotheses of
+-- `pixel_agg_is_reduction_end_to_end` on the scene `Level2.Example` with *different* pixel shapes
+-- ((2,) and (3,)): the call with pixel_agg succeeds, the one without is rejected
+example : aggT (V := Int) .sum min max [[[[1, 2], [10, 20, 30]]]] = [[[[3], [60]]]] := by decide
+example : aggT (V := Int) .max min max [[[[1, 2], [10, 30, 20]]]] = [[[[2], [30]]]] := by decide
+open Level2.Example in
+example : (∃ out, getBH exFlip exMin exMax exEntries exSensorsMixed false false .max = .ok out ∧
+      out.shape = [2, 2, 2, 1]) ∧
+    getBH exFlip exMin exMax exEntries exSensorsMixed false false .none = .error .badUserInput ∧
+    (∀ k ∈ exSensorsMixed, k.ori ≠ [] ∧ k.pos.length = k.ori.length ∧ k.pixels.length = pixNum k) := by
+  refine ⟨⟨_, getBH_ok _ _ _ _ _ _ _ _ (exNotBadMixed _ (by decide)), ?_⟩,
+    (getBH_error_iff _ _ _ _ _ _ _ _ _).mpr ⟨rfl, exBadMixed⟩, ?_⟩
+  · simp [shape0, exPathLenMixed]; simp [exEntries, exSensorsMixed]
+  · intro k hk
+    simp only [exSensorsMixed, List.mem_cons, List.not_mem_nil, or_false] at hk
+    rcases hk with rfl | rfl <;> simp [pixNum]
 
 end MagpyVerif.C04
